@@ -99,6 +99,7 @@ func hashStr(s string) uint64 {
 // fingerprinter computes the state key: per-thread ordered event histories (combined commutatively, so the
 // inter-thread order does not matter), the last write per object, what is parked/enabled now, and the clock.
 type fingerprinter struct {
+	bounded bool
 	nEv     int
 	threads map[string]uint64
 	lastW   map[string]uint64
@@ -134,6 +135,10 @@ func (f *fingerprinter) state(x *Exec, enabled []string) uint64 {
 	}
 	en := append([]string(nil), enabled...)
 	sort.Strings(en)
+	if f.bounded && x.CurRunning && len(enabled) > 0 {
+		// under a deviation bound the cost of the continuations depends on which operation continues the running thread
+		sum ^= hashStr("running:" + enabled[0])
+	}
 	k := sum ^ hashStr(strings.Join(en, ";")) ^ (uint64(now) * 0xff51afd7ed558ccd) ^ (uint64(x.Ticks) << 48)
 	if x.tickDead {
 		k ^= 0xdeadbeef
@@ -164,7 +169,7 @@ func (e *Explorer) runOnceUsed(prefix []string, expect []Point, count bool, used
 	if e.NewMon != nil {
 		mon = e.NewMon()
 	}
-	fp := &fingerprinter{}
+	fp := &fingerprinter{bounded: e.Opts.Bound < Unbounded}
 	var x *Exec
 	var xp **Exec = &x
 	diverged := ""
